@@ -24,7 +24,7 @@ use palette::cam16::{
 };
 use palette::convert::{FromColor, FromColorUnclamped};
 use palette::white_point::{Any, WhitePoint, D50, D65, E};
-use palette::Xyz;
+use palette::{Alpha, Xyz};
 use pvh::*;
 use serde_json::{json, Value};
 use std::io::BufRead;
@@ -105,6 +105,15 @@ struct ConvOut<T> {
     proj: [T; 3],
     pback: [T; 3],
     exp: [T; 6],
+    /// the same six vectors through the transparency-carrying forms (Alpha<Cam16>, Alpha<partial>): each followed by
+    /// the transparency that came out; `extra`: the partial colour through From<Alpha<Cam16>> and from_color_unclamped(full)
+    afull: Vec<T>,
+    afback: Vec<T>,
+    apart: Vec<T>,
+    aproj: Vec<T>,
+    apback: Vec<T>,
+    aexp: Vec<T>,
+    extra: Vec<Vec<T>>,
 }
 
 trait Cam<T> {
@@ -121,7 +130,22 @@ macro_rules! partial {
         let proj = $P::<$T>::from_full($full);
         let pb: Xyz<$Wp, $T> = part.into_xyz($s);
         let exp: Cam16<$T> = proj.into_full($s);
-        ([part.$l, part.$c, part.hue.into_raw_degrees()], [proj.$l, proj.$c, proj.hue.into_raw_degrees()], [pb.x, pb.y, pb.z], full6(exp))
+        // with transparency
+        let al: $T = 0.25;
+        let apart = Alpha::<$P<$T>, $T>::from_xyz(Alpha { color: $xyz, alpha: al }, $s);
+        let aproj = Alpha::<$P<$T>, $T>::from_full(Alpha { color: $full, alpha: al });
+        let apb: Alpha<Xyz<$Wp, $T>, $T> = apart.into_xyz($s);
+        let aexp: Alpha<Cam16<$T>, $T> = aproj.into_full($s);
+        let viafrom: Alpha<$P<$T>, $T> = Alpha { color: $full, alpha: al }.into();
+        let viaconv = $P::<$T>::from_color_unclamped($full);
+        let viaself = $P::<$T>::from_color_unclamped(proj);
+        let p3 = |p: $P<$T>| vec![p.$l, p.$c, p.hue.into_raw_degrees()];
+        let mut f6 = full6(aexp.color).to_vec(); f6.push(aexp.alpha);
+        (([part.$l, part.$c, part.hue.into_raw_degrees()], [proj.$l, proj.$c, proj.hue.into_raw_degrees()], [pb.x, pb.y, pb.z], full6(exp)),
+         (vec![apart.color.$l, apart.color.$c, apart.color.hue.into_raw_degrees(), apart.alpha],
+          vec![aproj.color.$l, aproj.color.$c, aproj.color.hue.into_raw_degrees(), aproj.alpha],
+          vec![apb.color.x, apb.color.y, apb.color.z, apb.alpha], f6,
+          vec![{ let mut v = p3(viafrom.color); v.push(viafrom.alpha); v }, p3(viaconv), p3(viaself)]))
     }};
 }
 
@@ -164,7 +188,7 @@ macro_rules! impl_cam {
                 let xyz: Xyz<$Wp, $T> = Xyz::new(x[0], x[1], x[2]);
                 let full: Cam16<$T> = Cam16::from_xyz(xyz, *self);
                 let fb: Xyz<$Wp, $T> = full.into_xyz(*self);
-                let (part, proj, pback, exp) = match pk {
+                let ((part, proj, pback, exp), (apart, aproj, apback, aexp, extra)) = match pk {
                     "jch" => partial!($T, $Wp, *self, xyz, full, Cam16Jch, lightness, chroma),
                     "jmh" => partial!($T, $Wp, *self, xyz, full, Cam16Jmh, lightness, colorfulness),
                     "jsh" => partial!($T, $Wp, *self, xyz, full, Cam16Jsh, lightness, saturation),
@@ -173,7 +197,12 @@ macro_rules! impl_cam {
                     "qsh" => partial!($T, $Wp, *self, xyz, full, Cam16Qsh, brightness, saturation),
                     o => panic!("harness: unknown partial kind {}", o),
                 };
-                ConvOut { full: full6(full), fback: [fb.x, fb.y, fb.z], part, proj, pback, exp }
+                let al: $T = 0.25;
+                let afull = Alpha::<Cam16<$T>, $T>::from_xyz(Alpha { color: xyz, alpha: al }, *self);
+                let afb: Alpha<Xyz<$Wp, $T>, $T> = afull.into_xyz(*self);
+                let mut af = full6(afull.color).to_vec(); af.push(afull.alpha);
+                ConvOut { full: full6(full), fback: [fb.x, fb.y, fb.z], part, proj, pback, exp,
+                          afull: af, afback: vec![afb.color.x, afb.color.y, afb.color.z, afb.alpha], apart, aproj, apback, aexp, extra }
             }
         }
     };
@@ -284,6 +313,14 @@ macro_rules! typed_events {
                     o.insert("proj".into(), ex_arr(&c.proj));
                     o.insert("pback".into(), ex_arr(&c.pback));
                     o.insert("exp".into(), ex_arr(&c.exp));
+                    o.insert("al".into(), (0.25 as $T).ex());
+                    o.insert("afull".into(), ex_arr(&c.afull));
+                    o.insert("afback".into(), ex_arr(&c.afback));
+                    o.insert("apart".into(), ex_arr(&c.apart));
+                    o.insert("aproj".into(), ex_arr(&c.aproj));
+                    o.insert("apback".into(), ex_arr(&c.apback));
+                    o.insert("aexp".into(), ex_arr(&c.aexp));
+                    o.insert("extra".into(), Value::Array(c.extra.iter().map(|v| ex_arr(v)).collect()));
                 }
                 Err(m) => {
                     o.insert("panic".into(), json!(1));
